@@ -11,3 +11,4 @@ import SJ.Props.TypedSrc
 #print axioms SJ.Props.TypedSrc.c09_typed_slice_reader_err
 #print axioms SJ.Props.TypedSrc.c09_typed_str_slice
 #print axioms SJ.Props.TypedSrc.c09_typed_all_sources
+#print axioms SJ.Props.TypedSrc.typed_within_input
